@@ -168,6 +168,35 @@ pub fn gen_mode(o: &Opts, mode: u32, sink: &mut dyn FnMut(Vec<i64>, String)) {
             }
         }
     }
+    if mode == 0 {
+        // EVERY PDU format, not only the parameter groups the drivers inspect today (a driver that starts to decode one more group must
+        // attribute it like the others): destination classes x sources (the unit, the daemon, a stranger, the null address) x payloads
+        // that carry the daemon's or the unit's address in the places acknowledgments, requests and claims carry addresses
+        let pf_step = 1;
+        for kind in kinds {
+            let (da, sa) = cfg_for(kind, 0);
+            for pf in (0..256u32).step_by(pf_step) {
+                let pgns: Vec<u32> = if pf < 240 { vec![pf << 8] } else { vec![pf << 8, (pf << 8) | 0xff, (pf << 8) | (da as u32 & 0xff)] };
+                for pgn in pgns {
+                    let dests: Vec<u32> = if pf < 240 { vec![sa as u32, 0xff, da as u32] } else { vec![0] };
+                    for ps in dests {
+                        for src in [da as u32, 0x99, 0xfe, sa as u32] {
+                            if !o.tier_thorough && (pf + ps + src) % 2 == 1 && !(230..=239).contains(&pf) { continue; }
+                            for variant in 0..3 {
+                                let who = [sa, 0xff, da][variant];
+                                let d: Vec<i64> = match variant {
+                                    0 | 1 => vec![rng.below(4) as i64, rng.byte() as i64, 0xff, 0xff, who, 0xeb, 0xfe, 0x00],
+                                    _ => vec![who, who, who, who, who, who, who, who],
+                                };
+                                let mut c = vec![kind, da, sa, id_of(6, pgn, ps, src) as i64]; c.extend(d);
+                                put!(c);
+                            }
+                        }
+                    }
+                }
+            }
+        }
+    }
     if mode == 1 {
         // the socket path: raw can_frames with every DLC 0..8 through CANSocket::recv + ControlNetwork::recv
         let nraw = if o.tier_thorough { 9_000 } else { 900 };
